@@ -26,6 +26,14 @@ def showORat : Option Rat → String
 def showMap (m : List (Str × Str)) : String :=
   ",".intercalate (m.map (fun (k, v) => String.ofList k ++ ":" ++ String.ofList v))
 
+def showOStr : Option Str → String
+  | none => "EXC"
+  | some x => String.ofList x
+
+def showOList : Option (List Str) → String
+  | none => "EXC"
+  | some xs => "|".intercalate (xs.map String.ofList)
+
 def v4Metrics : List Str :=
   [c!"AV", c!"AC", c!"AT", c!"PR", c!"UI", c!"VC", c!"VI", c!"VA", c!"SC", c!"SI", c!"SA", c!"CR", c!"IR", c!"AR",
    c!"E", c!"MSI", c!"MSA", c!"MAV", c!"S", c!"U"]
@@ -41,7 +49,7 @@ def handle (line : String) : String :=
       | .ok m =>
         match Code2.init_tail (Code2.initSelf str m) str with
         | none => "exc"
-        | some o => s!"ok\t{showORat o.base_score} {showORat o.temporal_score} {showORat o.environmental_score}"
+        | some o => s!"ok\t{showORat o.base_score} {showORat o.temporal_score} {showORat o.environmental_score}\t{showOStr (Code2.clean_vector o)}\t{showOList (Code2.severities o)}\t{showOStr (Code2.temporal_vector o)}\t{showOStr (Code2.environmental_vector o)}"
   | ["3", s] =>
     match decodeStr s with
     | none => "bad-op"
@@ -52,7 +60,7 @@ def handle (line : String) : String :=
         match Code3.init_tail { Code3.initSelf str m with minor_version := some (i : Int) } str with
         | none => "exc"
         | some o =>
-          s!"ok\t{showORat o.base_score} {showORat o.temporal_score} {showORat o.environmental_score}\t{showMap o.metrics}\t{match o.original_metrics with | some x => showMap x | none => "None"}"
+          s!"ok\t{showORat o.base_score} {showORat o.temporal_score} {showORat o.environmental_score}\t{showMap o.metrics}\t{match o.original_metrics with | some x => showMap x | none => "None"}\t{showOStr (Code3.clean_vector o true)}\t{showOStr (Code3.clean_vector o false)}\t{showOList (Code3.severities o)}\t{showOStr (Code3.temporal_vector o)}\t{showOStr (Code3.environmental_vector o)}"
   | ["4", s] =>
     match decodeStr s with
     | none => "bad-op"
@@ -69,7 +77,8 @@ def handle (line : String) : String :=
           let ms := v4Metrics.map (fun k => match Code4.m self k with
             | none => "EXC" | some none => "None" | some (some v) => String.ofList v)
           let mv := match Code4.macroVector self with | none => "EXC" | some v => String.ofList v
-          s!"ok\t{mv}\t{" ".intercalate ms}"
+          let orig := { self with original_metrics := m0 }
+          s!"ok\t{mv}\t{" ".intercalate ms}\t{showOStr (Code4.clean_vector orig true)}\t{showOStr (Code4.clean_vector orig false)}"
   | _ => "bad-op"
 
 partial def loop (h : IO.FS.Stream) (out : IO.FS.Stream) : IO Unit := do
